@@ -38,6 +38,26 @@ def sources(run):
     if run.tier == 'thorough':
         out.append(('segy exhaustive r16 (8,8,32)', lambda p: writers.segy_to_sgz(sgy, p, 16, (8, 8, 32), header_detection='exhaustive')))
         out.append(('segy strip r32', lambda p: writers.segy_to_sgz(sgy, p, 32, (4, 4, -1), header_detection='strip')))
+    # the other two writers of SGZ files: the cropper and the re-blocker (their output can be cut short just the same)
+    from seismic_zfp.cropping import SgzCropper
+    from seismic_zfp.conversion import SgzConverter
+    csrc = os.path.join(d, 'cropsrc.sgz')
+    writers.numpy_to_sgz(csrc, inputs.cube((9, 10, 70), run.seed + 5), 16, (4, 4, -1), ilines=np.arange(9) + 10, xlines=np.arange(10) * 2 + 20,
+                         samples=np.arange(70) * 4.0, trace_headers={segyio.TraceField.CDP_X: (np.arange(90).reshape(9, 10) * 3 + 7).astype(np.int32)})
+
+    def do_crop(p):
+        with env.quiet():
+            with SgzCropper(csrc) as c:
+                c.write_cropped_file_by_indexes(p, (4, 9), (0, 8), None)
+    out.append(('crop of numpy r16 (4,4,-1)', do_crop))
+    rsrc = os.path.join(d, 'reblocksrc.sgz')
+    writers.numpy_to_sgz(rsrc, inputs.cube((5, 70, 9), run.seed + 6), 2, (4, 4, -1))
+
+    def do_reblock(p):
+        with env.quiet():
+            with SgzConverter(rsrc) as c:
+                c.convert_to_adv_sgz(p)
+    out.append(('re-block of numpy r2', do_reblock))
     sgy2 = os.path.join(d, 'l.sgy')
     data = inputs.cube((9, 70), run.seed + 4)
     hdrs = [{segyio.TraceField.CDP_X: 100 + t, segyio.TraceField.CDP: t + 1} for t in range(9)]
@@ -76,7 +96,7 @@ def outcome(data, op, a, preload=False, reader=None):
     tmp = None
     if reader is not None:
         return _call(reader, op, a)
-    if op == 'variant_headers':         # a path on disk: the reader's local-file code, not a file-like object
+    if op in ('variant_headers', 'gen_trace_header'):         # a path on disk: the reader's local-file code, not a file-like object
         tmp = os.path.join(env.subdir(f'c18p-{os.getpid()}'), 'partial.sgz')
         with open(tmp, 'wb') as f:
             f.write(data)
@@ -87,7 +107,16 @@ def outcome(data, op, a, preload=False, reader=None):
         if isinstance(e, (KeyboardInterrupt, SystemExit, MemoryError)):
             raise
         return ('raise', 'open:' + type(e).__name__)
-    return _call(r, op, a)
+    if tmp is None:
+        return _call(r, op, a)
+    try:
+        return _call(r, op, a)
+    finally:
+        try:
+            with env.quiet():
+                r.close()
+        except Exception:
+            pass
 
 
 def _call(r, op, a):
@@ -100,11 +129,8 @@ def _call(r, op, a):
             if op == 'tracefield1':
                 return ('value', np.asarray(r.get_tracefield_values(a[0])).tolist())
             if op == 'variant_headers':
-                try:
-                    r.read_variant_headers()
-                    return ('value', {int(k): np.asarray(v).tolist() for k, v in r.variant_headers.items()})
-                finally:
-                    r.close()
+                r.read_variant_headers()
+                return ('value', {int(k): np.asarray(v).tolist() for k, v in r.variant_headers.items()})
             out = readcalls.invoke(r, op, a)
     except BaseException as e:
         if isinstance(e, (KeyboardInterrupt, SystemExit, MemoryError)):
